@@ -13,14 +13,16 @@ NATIVE_DECIDE_MODULES = ["WV.Proofs.ClientCert"]   # the one finite certificate,
 TRUSTED = ["native_decide on the finite certificate of the closed system (WV.Proofs.ClientCert.cert: ~2.8e4 states x 34 events): adds Lean.ofReduceBool/Lean.trustCompiler, i.e. the Lean compiler, to these theorems",
            "the environment model WV.ClientEnv.enabled (what a conformant server/peer/application may do); validated by trace inclusion of real-server runs",
            "SPAKE2 / SecretBox / HKDF (the model sees only 'decrypts' / 'does not decrypt', classified by the harness with the real keys)",
-           "ClientService (replaced by a fake that, like the real one, completes stopService() at once when there is no connection and after the connection is closed otherwise)",
-           "autobahn WebSocket framing; the mailbox server is the installed wormhole_mailbox_server (real protocol objects, in-memory DB)",
+           "in the model-compared world ClientService is replaced by a fake that, like the real one, completes stopService() at once when there is no connection and after the connection is closed otherwise, and autobahn's protocol by a stand-in that raises what autobahn raises (Disconnected in the closing window, PayloadExceededError over the factory's limit); the `real` cases run the real ClientService and the real autobahn protocols (oracle only, no model comparison)",
+           "the mailbox server is the installed wormhole_mailbox_server (real protocol objects, in-memory DB)",
            "Dilator stub: dilate() is not called in this world (C17 covers dilation shutdown)"]
 RULE = ("guided random schedules of the mailbox World (profiles: set/allocate/input code entry, matching or mismatching "
         "peer, lonely, welcome error, crowded nameplate, initial connection failure, late peer, frequent drops, a third participant whose messages the mailbox relays; message "
         "duplication and reordering; close() at any time); every step of client 0 is compared with the Lean model "
         "(outcome, 13 machine states, commands, app events); non-trivial = the run got beyond code entry and exchanged "
-        "at least one server frame; distinct = distinct canonical traces")
+        "at least one server frame; plus oracle-only runs of two clients on their REAL connection stack (real ClientService, "
+        "real autobahn handshake with the real server protocol, messages up to 700 kB, refused/unanswered reconnection "
+        "attempts); distinct = distinct canonical traces")
 
 
 def cases(rng, tier):
@@ -40,7 +42,13 @@ def cases(rng, tier):
     for _ in range(20 if tier == "quick" else 400):
         out.append(dict(kind="pair", seed=rng.randrange(10**9), fifo=rng.random() < 0.5, match=rng.random() < 0.8,
                         nmsg=rng.randrange(1, 4), drops=rng.random() < 0.3))
+    out.extend(real_cases(rng, tier))
     return out
+
+
+def real_cases(rng, tier):
+    return [dict(kind="real", seed=rng.randrange(10**9), steps=rng.choice([20, 50, 100]), pclose=rng.choice([0.0, 0.05, 0.1]))
+            for _ in range(30 if tier == "quick" else 600)]
 
 
 def oracle(summary):
@@ -61,6 +69,78 @@ def trace_oracle(summary):
     return oracle(summary)
 
 
+DOC_VERDICTS = ("happy", "LonelyError", "WrongPasswordError", "ServerError", "WelcomeError", "ServerConnectionError")
+DOC_API_ERRORS = ("OnlyOneCodeError", "KeyFormatError", "NoKeyError", "WormholeClosed", "WrongPasswordError", "LonelyError",
+                  "ServerError", "WelcomeError", "ServerConnectionError")
+
+
+def run_real(case):
+    """legal use on the REAL connection stack (worlds/realstack.py: real ClientService, real autobahn handshake with the
+    real server protocol over in-memory pipes): code entry, messages of any size, connection losses, refused and
+    unanswered reconnection attempts, close() at any time; then the server is reachable and time passes.  Nothing may
+    escape an entry point or a timer or be logged as an error, API calls raise only documented errors, and each
+    wormhole closes exactly once with 'happy' or a documented WormholeError."""
+    import random
+    from ..worlds.realstack import RealWorld
+    rng = random.Random(case["seed"])
+    viol = []
+    with RealWorld(seed=case["seed"]) as W:
+        cl = [W.add_client(), W.add_client()]
+        code = "9-drumbeat-uproot"
+        closed = [False, False]
+        coded = [False, False]
+        sizes = case.get("sizes", [1, 100, 700000])
+        for step in range(case["steps"]):
+            ci = rng.randrange(2)
+            c = cl[ci]
+            r = rng.random()
+            if closed[ci]:
+                W.advance(rng.choice([0.05, 1.0]))
+            elif r < 0.2 and not coded[ci]:
+                W.api(c, "set_code", code if rng.random() < case.get("pmatch", 0.85) else "9-wrong-word")
+                coded[ci] = True
+            elif r < 0.4:
+                W.api(c, "send_message", bytes(rng.choice(sizes)))
+            elif r < 0.5 and c.connected:
+                c.ep.mode = rng.choice(["up", "refuse", "mute"])
+                c.link.drop()
+            elif r < 0.6:
+                c.ep.mode = rng.choice(["up", "up", "refuse", "mute"])
+            elif r < 0.6 + case.get("pclose", 0.05):
+                W.api(c, "close")
+                closed[ci] = True
+            elif r < 0.85:
+                W.advance(rng.choice([0.05, 0.3, 1.0, 7.0, 65.0]))
+            else:
+                W.settle()
+        for c in cl:
+            c.ep.mode = "up"
+        W.advance(100.0, step=1.0)
+        for ci in (0, 1):
+            if not closed[ci]:
+                W.api(cl[ci], "close")
+        W.advance(200.0, step=1.0)
+        verdicts = []
+        for ci, c in enumerate(cl):
+            vs = [v for n, v in c.events if n == "closed"]
+            verdicts.append(vs[0] if vs else None)
+            if len(vs) != 1:
+                viol.append(("real:closed-%d-times" % len(vs), f"client {ci}: close() called, the server reachable for minutes: closed notified {len(vs)} times ({vs})"))
+            elif vs[0] not in DOC_VERDICTS:
+                viol.append(("verdict:" + str(vs[0]), f"client {ci}: closed with undocumented verdict {vs[0]}"))
+            if vs and c.events[-1][0] != "closed":
+                viol.append(("real:event-after-closed", f"client {ci}: events after closed: {c.events[c.events.index(('closed', vs[0])) + 1:]}"))
+            for ent in c.internal:
+                viol.append(("internal:" + ent[0], f"client {ci}: {ent} escaped a protocol entry point"))
+            for ent in c.api_errors:
+                if ent[1] not in DOC_API_ERRORS:
+                    viol.append(("api-raises:" + ent[1], f"client {ci}: {ent[0]}() raised undocumented {ent[1]}: {ent[2]}"))
+        for l in W.logged:
+            viol.append(("logged-error:" + l.split("(")[0].split(":")[0][:40], f"an error was logged: {l}"))
+        trace = [[n for n, v in c.events] for c in cl]
+        return Result([], [], viol, ["real"] + ["real:verdict:" + str(v) for v in verdicts], True, info=dict(trace=trace))
+
+
 EXTRA_TARGETS = ["wvsearch"]
 evidence_extra = mc.cert_stats
 
@@ -68,6 +148,8 @@ evidence_extra = mc.cert_stats
 def run_case(case):
     if case.get("kind") == "trace":
         return mc.run_trace_case(case, trace_oracle)
+    if case.get("kind") == "real":
+        return run_real(case)
     if case.get("kind") == "pair":
         # both API styles (a delegated and a Deferred client), close() repeated after completion
         from . import c18
@@ -103,6 +185,11 @@ def shrink(case):
         return
     if case.get("kind") == "pair":
         return          # generated from a seed; replayed as it is
+    if case.get("kind") == "real":
+        if case["steps"] > 5:
+            yield dict(case, steps=case["steps"] // 2)
+            yield dict(case, steps=case["steps"] - 1)
+        return
     case = explicit(case)
     ops = case["ops"]
     n = len(ops)
